@@ -290,15 +290,19 @@ def run_daemon(spec, result):
             with open(cfg, "w") as f:
                 f.write(case["text"].replace("echo verif-canary", "echo fired >> %s" % marker))
             env["VERIF_CANARY_FILE"] = marker
+            # the recorded merge-key finding at process level: the document loads, so the daemon runs
+            mech = "C18/merge-value-tag-ignored" if case["position"] == "merge_value" else None
             try:
-                proc = subprocess.run([core.PYTHON, "-m", "cobald.daemon", cfg], env=env, capture_output=True, text=True, timeout=60)
+                proc = subprocess.run([core.PYTHON, "-m", "cobald.daemon", cfg], env=env, capture_output=True, text=True, timeout=20 if mech else 60)
             except subprocess.TimeoutExpired:
-                result.violation("daemon stayed up on a hostile configuration\n" + case["text"], case, None, spec=spec, case_id=i)
+                if os.path.exists(marker):
+                    mech = None
+                result.violation("daemon stayed up on a hostile configuration\n" + case["text"], case, mech, spec=spec, case_id=i)
                 continue
             result.case(case, key="daemon:" + case["text"])
             result.count("daemon_runs")
             if proc.returncode == 0:
-                result.violation("daemon exited 0 on a hostile configuration\n" + case["text"], case, None, spec=spec, case_id=i)
+                result.violation("daemon exited 0 on a hostile configuration\n" + case["text"], case, mech if not os.path.exists(marker) else None, spec=spec, case_id=i)
             if os.path.exists(marker):
                 result.violation("canary fired in the daemon: %s\n%s" % (open(marker).read(), case["text"]), case, None, spec=spec, case_id=i)
 
